@@ -158,6 +158,15 @@ def gen(rng, tier, ctx):
             op["fs_faults"] = [{"on": rng.choice(["write", "write", "close", "open"]), "mode": "w", "nth": rng.randint(1, 8),
                                 "errno": rng.choice(["ENOSPC", "EIO", "EACCES"]), "partial": rng.choice([0, 0.5])}]
         opl.append(op)
+    if not marathon and rng.random() < 0.12:
+        # a parallel sweep: two neighbouring whole-percent parameter sets generated at the same time
+        q = dict(cur)
+        key = rng.choice(["rb", "lb", "tb", "lt"])
+        q[key] = min(99, max(1, round(q[key] * 100) + rng.choice([-1, 1]))) / 100
+        if q[key] != cur[key]:
+            pr = genops.make_pair(rng, cur, q)
+            pr["b"]["params"]["seed"] = pr["a"]["params"]["seed"]      # the names differ in the percentage
+            opl.insert(rng.randrange(len(opl) + 1), pr)
     return {"cfg": {"klass": "marathon", "fd_spare": 48} if marathon else {"klass": "plain"}, "ops": opl}
 
 
@@ -203,6 +212,23 @@ def execute(spec, w, ctx):
         kind = op["op"]
         if kind == "restart":
             w.restart(op.get("entropy", 0))
+            continue
+        if kind == "gen_pair":
+            wa, wb = genops.want_fields(op["a"]), genops.want_fields(op["b"])
+            if any(x is None for x in list(wa.values()) + list(wb.values())) or canon(wa) == canon(wb):
+                continue
+            out_a, res_b, before_p, after_p = genops.run_gen_pair(w, op)
+            events.append([i_op, "gen_pair", out_a["status"], res_b["status"]])
+            pb_ = genops.pair_problem(ctx, op, out_a, res_b, before_p, after_p)
+            if pb_ is not None and pb_[0] != "concurrent-run-failed":
+                # each parameter set has a file of its own only if each file holds what its own set produces
+                res["violation"] = viol("I17.2", i_op, pb_[1], "shared-path")
+                break
+            for rel in genops.game_files([k for k in after_p if before_p.get(k) != after_p.get(k)]):
+                got = genops.parse_name(rel)
+                for wf in (wa, wb):
+                    if all(got.get(k) == wf[k] for k in wf):
+                        written[rel] = canon(wf)
             continue
         if kind == "plant_legacy":
             leg = legacy_index()
